@@ -14,6 +14,8 @@ import (
 	"fmt"
 	"io"
 	"iter"
+	"math/rand"
+	randv2 "math/rand/v2"
 	"os"
 	"regexp"
 	"runtime"
@@ -107,8 +109,10 @@ type run struct {
 	nextDep    int64
 	guard      *guard
 
-	smu sync.Mutex // guards sch
-	sch schedState
+	smu  sync.Mutex // guards sch
+	sch  schedState
+	rnd  *rand.Rand
+	rnd2 *randv2.Rand
 
 	ev      uint64
 	mapEvts int
@@ -247,7 +251,22 @@ func Now() time.Time {
 	if r == nil {
 		return time.Now()
 	}
-	return epoch.Add(time.Duration(r.nowNs()))
+	// the wall clock a process starts at is the environment's choice: seeded schedules start
+	// at different instants (and days), so output that depends on the time of day diverges
+	var start time.Duration
+	if r.sc.Sched != "canon" {
+		start = time.Duration(mix(r.sc.Seed^0x74696d65)%uint64(400*24*time.Hour)) + time.Duration(r.sc.Seed%997)*time.Millisecond
+	}
+	// ... and run at different speeds (elapsed-time measurements differ between processes);
+	// timers keep the nominal rate, only what Now/Since report is scaled
+	elapsed := r.nowNs()
+	if elapsed == 0 {
+		elapsed = r.ticks * 40
+	}
+	if r.sc.Sched != "canon" {
+		elapsed = elapsed / 1024 * int64(768+mix(r.sc.Seed^0x73706565)%512)
+	}
+	return epoch.Add(start + time.Duration(elapsed))
 }
 
 // Since replaces time.Since.
